@@ -1,6 +1,7 @@
 package conccheck
 
 import (
+	"github.com/couchbase/nitro"
 	"testing"
 
 	"pgregory.net/rapid"
@@ -53,6 +54,11 @@ func TestC06Conc(t *testing.T) {
 			c.snapshot(ops, keys)
 		}
 		// concurrent closers
+		c.finalCloseOnly = rapid.Bool().Draw(t, "finalcloseonly")
+		c.coarse = rapid.Bool().Draw(t, "coarse")
+		// the windows this property is about: Open between test and add, Close at retirement, GC around its try-lock
+		c.hot = sched.DrawHotPlans(t, []int{nitro.VerifPtOpenTested, nitro.VerifPtCloseRetire, nitro.VerifPtGCBeforeTryLock, nitro.VerifPtGCPassDone}, 4, 30)
+		f.logf("finalCloseOnly=%v coarse=%v hot=%s", c.finalCloseOnly, c.coarse, sched.FmtHot(c.hot))
 		_, _, _ = runRefRound(t, c, f)
 		c.closeAllAndCollect(true)
 		c.shutdown()
